@@ -1,1 +1,1089 @@
 //! reference model: curve (see DESIGN.md §4 E7)
+//!
+//! Deliberately naive affine group laws over `BigUint` coordinates with an explicit identity:
+//! short Weierstrass `y² = x³ + a·x + b` and twisted Edwards `a·x² + y² = 1 + d·x²·y²`, generic
+//! over a small reference field (`PrimeF` = F_p, `QuadF` = F_p[u]/(u²+1)). Scalar multiplication
+//! is MSB-first double-and-add on affine points. The byte-level reference codecs of the encodings
+//! used by the exported curve types (ZCash BLS12-381 format, halo2curves "two spare bits" format,
+//! Jubjub / RFC 8032 Edwards format, SEC1 compressed) live here as well.
+//!
+//! Nothing in this file calls into the library under test. The curve constants are the published
+//! ones (IETF pairing-friendly-curves draft, SEC 2, EIP-196/197, Zcash protocol spec, RFC 7748 /
+//! RFC 8032); `c11` cross-checks them against what the library exposes.
+//!
+//! The small amount of prime-field arithmetic needed is private to this file on purpose
+//! (`refs::field` is written independently for C10).
+
+use std::fmt::Debug;
+use std::hash::Hash;
+
+use num_bigint::BigUint;
+use num_traits::{One, Zero};
+
+pub type Big = BigUint;
+
+pub fn big_hex(s: &str) -> Big {
+    let s: String = s.chars().filter(|c| !c.is_whitespace() && *c != '_').collect();
+    Big::parse_bytes(s.trim_start_matches("0x").as_bytes(), 16).expect("hex constant")
+}
+pub fn big_dec(s: &str) -> Big {
+    Big::parse_bytes(s.as_bytes(), 10).expect("decimal constant")
+}
+pub fn big_u(v: u64) -> Big {
+    Big::from(v)
+}
+
+/// big-endian, left padded to `n` bytes (panics if it does not fit: harness bug)
+pub fn be_bytes(v: &Big, n: usize) -> Vec<u8> {
+    let b = v.to_bytes_be();
+    assert!(b.len() <= n, "value does not fit in {n} bytes");
+    let mut out = vec![0u8; n - b.len()];
+    out.extend_from_slice(&b);
+    out
+}
+pub fn le_bytes(v: &Big, n: usize) -> Vec<u8> {
+    let mut b = be_bytes(v, n);
+    b.reverse();
+    b
+}
+
+// ---------------------------------------------------------------------------------------------
+// Reference fields
+// ---------------------------------------------------------------------------------------------
+
+pub trait RField: Clone + Send + Sync {
+    type El: Clone + PartialEq + Eq + Debug + Hash + Send + Sync;
+    fn p(&self) -> &Big;
+    fn zero(&self) -> Self::El;
+    fn one(&self) -> Self::El;
+    fn from_u64(&self, v: u64) -> Self::El;
+    fn is_zero(&self, a: &Self::El) -> bool;
+    fn add(&self, a: &Self::El, b: &Self::El) -> Self::El;
+    fn sub(&self, a: &Self::El, b: &Self::El) -> Self::El;
+    fn neg(&self, a: &Self::El) -> Self::El;
+    fn mul(&self, a: &Self::El, b: &Self::El) -> Self::El;
+    fn sqr(&self, a: &Self::El) -> Self::El {
+        self.mul(a, a)
+    }
+    fn inv(&self, a: &Self::El) -> Option<Self::El>;
+    fn is_square(&self, a: &Self::El) -> bool;
+    fn sqrt(&self, a: &Self::El) -> Option<Self::El>;
+    /// number of bytes of one serialized element
+    fn byte_len(&self) -> usize;
+    /// `be = true`: big-endian, highest-degree coefficient first (ZCash / blst convention);
+    /// `be = false`: little-endian, lowest-degree coefficient first (halo2curves convention).
+    fn ser(&self, a: &Self::El, be: bool) -> Vec<u8>;
+    /// canonical only (every coefficient `< p`); wrong length ⇒ `None`
+    fn de(&self, bytes: &[u8], be: bool) -> Option<Self::El>;
+    /// like `de` but coefficients are taken as integers without the range check
+    fn de_raw(&self, bytes: &[u8], be: bool) -> Vec<Big>;
+    /// ZCash "lexicographically largest" (used as the sign of y in the BLS12-381 encodings)
+    fn lex_largest(&self, a: &Self::El) -> bool;
+    /// parity of the lowest-degree coefficient (sign convention of halo2curves, SEC1, Edwards)
+    fn is_odd(&self, a: &Self::El) -> bool;
+    fn hex(&self, a: &Self::El) -> String;
+    fn div(&self, a: &Self::El, b: &Self::El) -> Option<Self::El> {
+        self.inv(b).map(|bi| self.mul(a, &bi))
+    }
+}
+
+#[derive(Clone, Debug)]
+pub struct PrimeF {
+    pub p: Big,
+    nbytes: usize,
+}
+
+impl PrimeF {
+    pub fn new(p: Big) -> Self {
+        let nbytes = ((p.bits() + 7) / 8) as usize;
+        PrimeF { p, nbytes }
+    }
+    pub fn el(&self, v: &Big) -> Big {
+        v % &self.p
+    }
+    fn half(&self) -> Big {
+        (&self.p - 1u32) >> 1
+    }
+}
+
+fn legendre_is_qr(a: &Big, p: &Big) -> bool {
+    if a.is_zero() {
+        return true;
+    }
+    a.modpow(&((p - 1u32) >> 1), p).is_one()
+}
+
+/// Tonelli–Shanks; returns some root (caller fixes the sign)
+fn sqrt_mod_p(a: &Big, p: &Big) -> Option<Big> {
+    let a = a % p;
+    if a.is_zero() {
+        return Some(Big::zero());
+    }
+    if !legendre_is_qr(&a, p) {
+        return None;
+    }
+    if (p % 4u32) == big_u(3) {
+        let r = a.modpow(&((p + 1u32) >> 2), p);
+        return Some(r);
+    }
+    // p - 1 = q * 2^s
+    let mut q = p - 1u32;
+    let mut s = 0u32;
+    while (&q & Big::one()).is_zero() {
+        q >>= 1;
+        s += 1;
+    }
+    let mut z = big_u(2);
+    while legendre_is_qr(&z, p) {
+        z += 1u32;
+    }
+    let mut m = s;
+    let mut c = z.modpow(&q, p);
+    let mut t = a.modpow(&q, p);
+    let mut r = a.modpow(&((&q + 1u32) >> 1), p);
+    while !t.is_one() {
+        let mut i = 0u32;
+        let mut tt = t.clone();
+        while !tt.is_one() {
+            tt = (&tt * &tt) % p;
+            i += 1;
+            if i == m {
+                return None;
+            }
+        }
+        let b = c.modpow(&(Big::one() << (m - i - 1) as usize), p);
+        m = i;
+        c = (&b * &b) % p;
+        t = (&t * &c) % p;
+        r = (&r * &b) % p;
+    }
+    Some(r)
+}
+
+impl RField for PrimeF {
+    type El = Big;
+    fn p(&self) -> &Big {
+        &self.p
+    }
+    fn zero(&self) -> Big {
+        Big::zero()
+    }
+    fn one(&self) -> Big {
+        Big::one()
+    }
+    fn from_u64(&self, v: u64) -> Big {
+        big_u(v) % &self.p
+    }
+    fn is_zero(&self, a: &Big) -> bool {
+        a.is_zero()
+    }
+    fn add(&self, a: &Big, b: &Big) -> Big {
+        (a + b) % &self.p
+    }
+    fn sub(&self, a: &Big, b: &Big) -> Big {
+        ((a + &self.p) - (b % &self.p)) % &self.p
+    }
+    fn neg(&self, a: &Big) -> Big {
+        (&self.p - (a % &self.p)) % &self.p
+    }
+    fn mul(&self, a: &Big, b: &Big) -> Big {
+        (a * b) % &self.p
+    }
+    fn inv(&self, a: &Big) -> Option<Big> {
+        if (a % &self.p).is_zero() {
+            None
+        } else {
+            a.modinv(&self.p)
+        }
+    }
+    fn is_square(&self, a: &Big) -> bool {
+        legendre_is_qr(&(a % &self.p), &self.p)
+    }
+    fn sqrt(&self, a: &Big) -> Option<Big> {
+        let r = sqrt_mod_p(a, &self.p)?;
+        debug_assert_eq!(self.mul(&r, &r), a % &self.p);
+        Some(r)
+    }
+    fn byte_len(&self) -> usize {
+        self.nbytes
+    }
+    fn ser(&self, a: &Big, be: bool) -> Vec<u8> {
+        if be {
+            be_bytes(a, self.nbytes)
+        } else {
+            le_bytes(a, self.nbytes)
+        }
+    }
+    fn de(&self, bytes: &[u8], be: bool) -> Option<Big> {
+        if bytes.len() != self.nbytes {
+            return None;
+        }
+        let v = if be { Big::from_bytes_be(bytes) } else { Big::from_bytes_le(bytes) };
+        (v < self.p).then_some(v)
+    }
+    fn de_raw(&self, bytes: &[u8], be: bool) -> Vec<Big> {
+        vec![if be { Big::from_bytes_be(bytes) } else { Big::from_bytes_le(bytes) }]
+    }
+    fn lex_largest(&self, a: &Big) -> bool {
+        *a > self.half()
+    }
+    fn is_odd(&self, a: &Big) -> bool {
+        a.bit(0)
+    }
+    fn hex(&self, a: &Big) -> String {
+        format!("{a:x}")
+    }
+}
+
+/// F_p[u]/(u² + 1); requires p ≡ 3 (mod 4) (true for BLS12-381 and BN254 base fields).
+#[derive(Clone, Debug)]
+pub struct QuadF {
+    pub base: PrimeF,
+}
+
+impl QuadF {
+    pub fn new(p: Big) -> Self {
+        assert_eq!(&p % 4u32, big_u(3), "QuadF needs p = 3 mod 4 (u^2 = -1 non-residue)");
+        QuadF { base: PrimeF::new(p) }
+    }
+    pub fn el(&self, c0: &Big, c1: &Big) -> (Big, Big) {
+        (c0 % &self.base.p, c1 % &self.base.p)
+    }
+    fn norm(&self, a: &(Big, Big)) -> Big {
+        let f = &self.base;
+        f.add(&f.mul(&a.0, &a.0), &f.mul(&a.1, &a.1))
+    }
+}
+
+impl RField for QuadF {
+    type El = (Big, Big);
+    fn p(&self) -> &Big {
+        &self.base.p
+    }
+    fn zero(&self) -> (Big, Big) {
+        (Big::zero(), Big::zero())
+    }
+    fn one(&self) -> (Big, Big) {
+        (Big::one(), Big::zero())
+    }
+    fn from_u64(&self, v: u64) -> (Big, Big) {
+        (self.base.from_u64(v), Big::zero())
+    }
+    fn is_zero(&self, a: &(Big, Big)) -> bool {
+        a.0.is_zero() && a.1.is_zero()
+    }
+    fn add(&self, a: &(Big, Big), b: &(Big, Big)) -> (Big, Big) {
+        (self.base.add(&a.0, &b.0), self.base.add(&a.1, &b.1))
+    }
+    fn sub(&self, a: &(Big, Big), b: &(Big, Big)) -> (Big, Big) {
+        (self.base.sub(&a.0, &b.0), self.base.sub(&a.1, &b.1))
+    }
+    fn neg(&self, a: &(Big, Big)) -> (Big, Big) {
+        (self.base.neg(&a.0), self.base.neg(&a.1))
+    }
+    fn mul(&self, a: &(Big, Big), b: &(Big, Big)) -> (Big, Big) {
+        // (a0 + a1 u)(b0 + b1 u) = a0 b0 − a1 b1 + (a0 b1 + a1 b0) u     — schoolbook
+        let f = &self.base;
+        let c0 = f.sub(&f.mul(&a.0, &b.0), &f.mul(&a.1, &b.1));
+        let c1 = f.add(&f.mul(&a.0, &b.1), &f.mul(&a.1, &b.0));
+        (c0, c1)
+    }
+    fn inv(&self, a: &(Big, Big)) -> Option<(Big, Big)> {
+        let f = &self.base;
+        let n = self.norm(a);
+        let ni = f.inv(&n)?;
+        Some((f.mul(&a.0, &ni), f.mul(&f.neg(&a.1), &ni)))
+    }
+    fn is_square(&self, a: &(Big, Big)) -> bool {
+        // a is a square in F_p² iff its norm is a square in F_p
+        self.base.is_square(&self.norm(a))
+    }
+    fn sqrt(&self, a: &(Big, Big)) -> Option<(Big, Big)> {
+        let f = &self.base;
+        if self.is_zero(a) {
+            return Some(self.zero());
+        }
+        if a.1.is_zero() {
+            // a0 square ⇒ (√a0, 0); otherwise −a0 is a square and (√(−a0)·u)² = a0
+            return match f.sqrt(&a.0) {
+                Some(r) => Some((r, Big::zero())),
+                None => f.sqrt(&f.neg(&a.0)).map(|r| (Big::zero(), r)),
+            };
+        }
+        let alpha = f.sqrt(&self.norm(a))?;
+        let two_inv = f.inv(&big_u(2))?;
+        let mut delta = f.mul(&f.add(&a.0, &alpha), &two_inv);
+        if !f.is_square(&delta) {
+            delta = f.mul(&f.sub(&a.0, &alpha), &two_inv);
+        }
+        let x0 = f.sqrt(&delta)?;
+        let x1 = f.mul(&a.1, &f.inv(&f.mul(&big_u(2), &x0))?);
+        let r = (x0, x1);
+        if self.mul(&r, &r) == *a {
+            Some(r)
+        } else {
+            None
+        }
+    }
+    fn byte_len(&self) -> usize {
+        2 * self.base.nbytes
+    }
+    fn ser(&self, a: &(Big, Big), be: bool) -> Vec<u8> {
+        let n = self.base.nbytes;
+        let mut out = Vec::with_capacity(2 * n);
+        if be {
+            out.extend(be_bytes(&a.1, n));
+            out.extend(be_bytes(&a.0, n));
+        } else {
+            out.extend(le_bytes(&a.0, n));
+            out.extend(le_bytes(&a.1, n));
+        }
+        out
+    }
+    fn de(&self, bytes: &[u8], be: bool) -> Option<(Big, Big)> {
+        if bytes.len() != self.byte_len() {
+            return None;
+        }
+        let v = self.de_raw(bytes, be);
+        (v[0] < self.base.p && v[1] < self.base.p).then(|| (v[0].clone(), v[1].clone()))
+    }
+    fn de_raw(&self, bytes: &[u8], be: bool) -> Vec<Big> {
+        let n = self.base.nbytes;
+        if be {
+            vec![Big::from_bytes_be(&bytes[n..2 * n]), Big::from_bytes_be(&bytes[..n])]
+        } else {
+            vec![Big::from_bytes_le(&bytes[..n]), Big::from_bytes_le(&bytes[n..2 * n])]
+        }
+    }
+    fn lex_largest(&self, a: &(Big, Big)) -> bool {
+        if a.1.is_zero() {
+            self.base.lex_largest(&a.0)
+        } else {
+            self.base.lex_largest(&a.1)
+        }
+    }
+    fn is_odd(&self, a: &(Big, Big)) -> bool {
+        a.0.bit(0)
+    }
+    fn hex(&self, a: &(Big, Big)) -> String {
+        format!("{:x}+{:x}*u", a.0, a.1)
+    }
+}
+
+// ---------------------------------------------------------------------------------------------
+// Points and curves
+// ---------------------------------------------------------------------------------------------
+
+#[derive(Clone, PartialEq, Eq, Debug, Hash)]
+pub enum Pt<E> {
+    /// point at infinity (Weierstrass only; the Edwards identity is the affine point (0, 1))
+    Inf,
+    Aff(E, E),
+}
+
+impl<E> Pt<E> {
+    pub fn xy(&self) -> Option<(&E, &E)> {
+        match self {
+            Pt::Inf => None,
+            Pt::Aff(x, y) => Some((x, y)),
+        }
+    }
+}
+
+pub trait RCurve: Send + Sync {
+    type F: RField;
+    fn f(&self) -> &Self::F;
+    fn identity(&self) -> Pt<<Self::F as RField>::El>;
+    fn is_identity(&self, p: &Pt<<Self::F as RField>::El>) -> bool {
+        *p == self.identity()
+    }
+    fn on_curve(&self, p: &Pt<<Self::F as RField>::El>) -> bool;
+    fn neg(&self, p: &Pt<<Self::F as RField>::El>) -> Pt<<Self::F as RField>::El>;
+    /// `None` iff the affine formula is undefined on these operands (only possible for operands
+    /// that are not on the curve).
+    fn add(
+        &self,
+        p: &Pt<<Self::F as RField>::El>,
+        q: &Pt<<Self::F as RField>::El>,
+    ) -> Option<Pt<<Self::F as RField>::El>>;
+    fn sub(
+        &self,
+        p: &Pt<<Self::F as RField>::El>,
+        q: &Pt<<Self::F as RField>::El>,
+    ) -> Option<Pt<<Self::F as RField>::El>> {
+        self.add(p, &self.neg(q))
+    }
+    fn double(&self, p: &Pt<<Self::F as RField>::El>) -> Option<Pt<<Self::F as RField>::El>> {
+        self.add(p, p)
+    }
+    /// naive MSB-first double-and-add with the integer `k` (not reduced)
+    fn mul(&self, p: &Pt<<Self::F as RField>::El>, k: &Big) -> Option<Pt<<Self::F as RField>::El>> {
+        let mut acc = self.identity();
+        let bits = k.bits();
+        for i in (0..bits).rev() {
+            acc = self.double(&acc)?;
+            if k.bit(i) {
+                acc = self.add(&acc, p)?;
+            }
+        }
+        Some(acc)
+    }
+    fn hex(&self, p: &Pt<<Self::F as RField>::El>) -> String {
+        match p {
+            Pt::Inf => "inf".into(),
+            Pt::Aff(x, y) => format!("({}, {})", self.f().hex(x), self.f().hex(y)),
+        }
+    }
+}
+
+pub type El<C> = <<C as RCurve>::F as RField>::El;
+pub type PtOf<C> = Pt<El<C>>;
+
+/// y² = x³ + a·x + b
+#[derive(Clone, Debug)]
+pub struct Weierstrass<F: RField> {
+    pub f: F,
+    pub a: F::El,
+    pub b: F::El,
+}
+
+impl<F: RField> Weierstrass<F> {
+    /// x³ + a·x + b
+    pub fn rhs(&self, x: &F::El) -> F::El {
+        let f = &self.f;
+        f.add(&f.add(&f.mul(&f.sqr(x), x), &f.mul(&self.a, x)), &self.b)
+    }
+}
+
+impl<F: RField> RCurve for Weierstrass<F> {
+    type F = F;
+    fn f(&self) -> &F {
+        &self.f
+    }
+    fn identity(&self) -> Pt<F::El> {
+        Pt::Inf
+    }
+    fn on_curve(&self, p: &Pt<F::El>) -> bool {
+        match p {
+            Pt::Inf => true,
+            Pt::Aff(x, y) => self.f.sqr(y) == self.rhs(x),
+        }
+    }
+    fn neg(&self, p: &Pt<F::El>) -> Pt<F::El> {
+        match p {
+            Pt::Inf => Pt::Inf,
+            Pt::Aff(x, y) => Pt::Aff(x.clone(), self.f.neg(y)),
+        }
+    }
+    fn add(&self, p: &Pt<F::El>, q: &Pt<F::El>) -> Option<Pt<F::El>> {
+        let f = &self.f;
+        let (x1, y1) = match p {
+            Pt::Inf => return Some(q.clone()),
+            Pt::Aff(x, y) => (x, y),
+        };
+        let (x2, y2) = match q {
+            Pt::Inf => return Some(p.clone()),
+            Pt::Aff(x, y) => (x, y),
+        };
+        let lambda = if x1 == x2 {
+            if *y1 == f.neg(y2) {
+                // P = −Q (this includes 2-torsion points doubled)
+                return Some(Pt::Inf);
+            }
+            if y1 != y2 {
+                // same x, y neither equal nor opposite: at least one operand is off the curve
+                return None;
+            }
+            // tangent: (3x² + a) / (2y)
+            let num = f.add(&f.mul(&f.from_u64(3), &f.sqr(x1)), &self.a);
+            let den = f.add(y1, y1);
+            f.div(&num, &den)?
+        } else {
+            f.div(&f.sub(y2, y1), &f.sub(x2, x1))?
+        };
+        let x3 = f.sub(&f.sub(&f.sqr(&lambda), x1), x2);
+        let y3 = f.sub(&f.mul(&lambda, &f.sub(x1, &x3)), y1);
+        Some(Pt::Aff(x3, y3))
+    }
+}
+
+/// a·x² + y² = 1 + d·x²·y²
+#[derive(Clone, Debug)]
+pub struct TwistedEdwards<F: RField> {
+    pub f: F,
+    pub a: F::El,
+    pub d: F::El,
+}
+
+impl<F: RField> TwistedEdwards<F> {
+    /// x² = (y² − 1) / (d·y² − a); `None` if the denominator vanishes
+    pub fn x2_from_y(&self, y: &F::El) -> Option<F::El> {
+        let f = &self.f;
+        let y2 = f.sqr(y);
+        f.div(&f.sub(&y2, &f.one()), &f.sub(&f.mul(&self.d, &y2), &self.a))
+    }
+}
+
+impl<F: RField> RCurve for TwistedEdwards<F> {
+    type F = F;
+    fn f(&self) -> &F {
+        &self.f
+    }
+    fn identity(&self) -> Pt<F::El> {
+        Pt::Aff(self.f.zero(), self.f.one())
+    }
+    fn on_curve(&self, p: &Pt<F::El>) -> bool {
+        let f = &self.f;
+        match p {
+            Pt::Inf => false,
+            Pt::Aff(x, y) => {
+                let x2 = f.sqr(x);
+                let y2 = f.sqr(y);
+                f.add(&f.mul(&self.a, &x2), &y2) == f.add(&f.one(), &f.mul(&self.d, &f.mul(&x2, &y2)))
+            }
+        }
+    }
+    fn neg(&self, p: &Pt<F::El>) -> Pt<F::El> {
+        match p {
+            Pt::Inf => Pt::Inf,
+            Pt::Aff(x, y) => Pt::Aff(self.f.neg(x), y.clone()),
+        }
+    }
+    fn add(&self, p: &Pt<F::El>, q: &Pt<F::El>) -> Option<Pt<F::El>> {
+        let f = &self.f;
+        let (x1, y1) = p.xy()?;
+        let (x2, y2) = q.xy()?;
+        let x1x2 = f.mul(x1, x2);
+        let y1y2 = f.mul(y1, y2);
+        let t = f.mul(&self.d, &f.mul(&x1x2, &y1y2));
+        let x3 = f.div(&f.add(&f.mul(x1, y2), &f.mul(y1, x2)), &f.add(&f.one(), &t))?;
+        let y3 = f.div(&f.sub(&y1y2, &f.mul(&self.a, &x1x2)), &f.sub(&f.one(), &t))?;
+        Some(Pt::Aff(x3, y3))
+    }
+}
+
+/// A curve with its published generator, prime subgroup order and cofactor.
+pub struct Spec<C: RCurve> {
+    pub name: &'static str,
+    pub curve: C,
+    pub gen: PtOf<C>,
+    pub r: Big,
+    pub h: Big,
+}
+
+impl<C: RCurve> Spec<C> {
+    pub fn in_subgroup(&self, p: &PtOf<C>) -> bool {
+        self.curve.on_curve(p)
+            && self.curve.mul(p, &self.r).map(|q| self.curve.is_identity(&q)).unwrap_or(false)
+    }
+    /// self-check of the constants: generator on the curve, order exactly r (r prime is trusted)
+    pub fn sane(&self) -> Result<(), String> {
+        if !self.curve.on_curve(&self.gen) {
+            return Err(format!("{}: generator not on curve", self.name));
+        }
+        if self.curve.is_identity(&self.gen) {
+            return Err(format!("{}: generator is the identity", self.name));
+        }
+        if !self.in_subgroup(&self.gen) {
+            return Err(format!("{}: r * generator != identity", self.name));
+        }
+        Ok(())
+    }
+}
+
+// ---------------------------------------------------------------------------------------------
+// Published parameters
+// ---------------------------------------------------------------------------------------------
+
+pub const BLS12_381_P: &str = "1a0111ea397fe69a4b1ba7b6434bacd764774b84f38512bf6730d2a0f6b0f6241eabfffeb153ffffb9feffffffffaaab";
+pub const BLS12_381_R: &str = "73eda753299d7d483339d80809a1d80553bda402fffe5bfeffffffff00000001";
+
+pub fn bls12_381_g1() -> Spec<Weierstrass<PrimeF>> {
+    let f = PrimeF::new(big_hex(BLS12_381_P));
+    Spec {
+        name: "BLS12-381 G1",
+        curve: Weierstrass { a: Big::zero(), b: big_u(4), f },
+        gen: Pt::Aff(
+            big_hex("17f1d3a73197d7942695638c4fa9ac0fc3688c4f9774b905a14e3a3f171bac586c55e83ff97a1aeffb3af00adb22c6bb"),
+            big_hex("08b3f481e3aaa0f1a09e30ed741d8ae4fcf5e095d5d00af600db18cb2c04b3edd03cc744a2888ae40caa232946c5e7e1"),
+        ),
+        r: big_hex(BLS12_381_R),
+        h: big_hex("396c8c005555e1568c00aaab0000aaab"),
+    }
+}
+
+pub fn bls12_381_g2() -> Spec<Weierstrass<QuadF>> {
+    let f = QuadF::new(big_hex(BLS12_381_P));
+    Spec {
+        name: "BLS12-381 G2",
+        curve: Weierstrass { a: f.zero(), b: (big_u(4), big_u(4)), f },
+        gen: Pt::Aff(
+            (
+                big_hex("024aa2b2f08f0a91260805272dc51051c6e47ad4fa403b02b4510b647ae3d1770bac0326a805bbefd48056c8c121bdb8"),
+                big_hex("13e02b6052719f607dacd3a088274f65596bd0d09920b61ab5da61bbdc7f5049334cf11213945d57e5ac7d055d042b7e"),
+            ),
+            (
+                big_hex("0ce5d527727d6e118cc9cdc6da2e351aadfd9baa8cbdd3a76d429a695160d12c923ac9cc3baca289e193548608b82801"),
+                big_hex("0606c4a02ea734cc32acd2b02bc28b99cb3e287e85a763af267492ab572e99ab3f370d275cec1da1aaa9075ff05f79be"),
+            ),
+        ),
+        r: big_hex(BLS12_381_R),
+        h: big_hex("5d543a95414e7f1091d50792876a202cd91de4547085abaa68a205b2e5a7ddfa628f1cb4d9e82ef21537e293a6691ae1616ec6e786f0c70cf1c38e31c7238e5"),
+    }
+}
+
+pub const BN254_P: &str = "30644e72e131a029b85045b68181585d97816a916871ca8d3c208c16d87cfd47";
+pub const BN254_R: &str = "30644e72e131a029b85045b68181585d2833e84879b9709143e1f593f0000001";
+
+pub fn bn254_g1() -> Spec<Weierstrass<PrimeF>> {
+    let f = PrimeF::new(big_hex(BN254_P));
+    Spec {
+        name: "BN254 G1",
+        curve: Weierstrass { a: Big::zero(), b: big_u(3), f },
+        gen: Pt::Aff(big_u(1), big_u(2)),
+        r: big_hex(BN254_R),
+        h: big_u(1),
+    }
+}
+
+pub fn bn254_g2() -> Spec<Weierstrass<QuadF>> {
+    let f = QuadF::new(big_hex(BN254_P));
+    // b' = 3 / (9 + u)    (D-type sextic twist, EIP-197)
+    let b = f.div(&f.from_u64(3), &(big_u(9), big_u(1))).expect("9+u invertible");
+    let p = big_hex(BN254_P);
+    let r = big_hex(BN254_R);
+    Spec {
+        name: "BN254 G2",
+        curve: Weierstrass { a: f.zero(), b, f },
+        gen: Pt::Aff(
+            (
+                big_dec("10857046999023057135944570762232829481370756359578518086990519993285655852781"),
+                big_dec("11559732032986387107991004021392285783925812861821192530917403151452391805634"),
+            ),
+            (
+                big_dec("8495653923123431417604973247489272438418190587263600148770280649306958101930"),
+                big_dec("4082367875863433681332203403145435568316851327593401208105741076214120093531"),
+            ),
+        ),
+        // #E'(F_p²) = r · (2p − r)
+        h: (&p + &p) - &r,
+        r,
+    }
+}
+
+pub fn secp256k1() -> Spec<Weierstrass<PrimeF>> {
+    let f = PrimeF::new(big_hex("fffffffffffffffffffffffffffffffffffffffffffffffffffffffefffffc2f"));
+    Spec {
+        name: "secp256k1",
+        curve: Weierstrass { a: Big::zero(), b: big_u(7), f },
+        gen: Pt::Aff(
+            big_hex("79be667ef9dcbbac55a06295ce870b07029bfcdb2dce28d959f2815b16f81798"),
+            big_hex("483ada7726a3c4655da4fbfc0e1108a8fd17b448a68554199c47d08ffb10d4b8"),
+        ),
+        r: big_hex("fffffffffffffffffffffffffffffffebaaedce6af48a03bbfd25e8cd0364141"),
+        h: big_u(1),
+    }
+}
+
+pub const JUBJUB_R: &str = "0e7db4ea6533afa906673b0101343b00a6682093ccc81082d0970e5ed6f72cb7";
+
+/// Jubjub (Zcash protocol spec §5.4.9.3): −u² + v² = 1 + d·u²·v² over the BLS12-381 scalar field,
+/// d = −10240/10241. No full-group generator is standardised; `gen` is the prime-order point the
+/// reference derives itself: 8·(u, v) for the smallest v ≥ 2 with even ("positive") u.
+pub fn jubjub() -> Spec<TwistedEdwards<PrimeF>> {
+    let f = PrimeF::new(big_hex(BLS12_381_R));
+    let d = f.neg(&f.div(&big_u(10240), &big_u(10241)).unwrap());
+    let a = f.neg(&Big::one());
+    let curve = TwistedEdwards { f, a, d };
+    let r = big_hex(JUBJUB_R);
+    let gen = edwards_first_point(&curve, &r);
+    Spec { name: "Jubjub", curve, gen, r, h: big_u(8) }
+}
+
+/// Curve25519 in its twisted Edwards form (RFC 8032 edwards25519), base point y = 4/5, x even.
+pub fn edwards25519() -> Spec<TwistedEdwards<PrimeF>> {
+    let p = (Big::one() << 255usize) - 19u32;
+    let f = PrimeF::new(p);
+    let d = f.neg(&f.div(&big_u(121665), &big_u(121666)).unwrap());
+    let a = f.neg(&Big::one());
+    let curve = TwistedEdwards { f, a, d };
+    let y = curve.f.div(&big_u(4), &big_u(5)).unwrap();
+    let mut x = curve.f.sqrt(&curve.x2_from_y(&y).unwrap()).expect("base point x");
+    if x.bit(0) {
+        x = curve.f.neg(&x);
+    }
+    let r = (Big::one() << 252usize) + big_dec("27742317777372353535851937790883648493");
+    Spec { name: "edwards25519", curve, gen: Pt::Aff(x, y), r, h: big_u(8) }
+}
+
+/// smallest y ≥ 2 giving a point of full order 8·r, even x; returns 8·P (order r)
+fn edwards_first_point(c: &TwistedEdwards<PrimeF>, r: &Big) -> Pt<Big> {
+    let mut y = big_u(2);
+    loop {
+        if let Some(x2) = c.x2_from_y(&y) {
+            if let Some(mut x) = c.f.sqrt(&x2) {
+                if x.bit(0) {
+                    x = c.f.neg(&x);
+                }
+                let p = Pt::Aff(x, y.clone());
+                let p8 = c.mul(&p, &big_u(8)).unwrap();
+                if !c.is_identity(&p8) && c.is_identity(&c.mul(&p8, r).unwrap()) {
+                    return p8;
+                }
+            }
+        }
+        y += 1u32;
+    }
+}
+
+/// All points of order dividing 8 of an Edwards curve with cofactor 8 (cyclic 8-torsion assumed:
+/// Jubjub, edwards25519): derived from r·P for on-curve points P until an element of order 8 is
+/// found. Returned as [T, 2T, …, 8T = identity].
+pub fn edwards_torsion8(spec: &Spec<TwistedEdwards<PrimeF>>) -> Vec<Pt<Big>> {
+    let c = &spec.curve;
+    let mut y = big_u(2);
+    loop {
+        if let Some(x2) = c.x2_from_y(&y) {
+            if let Some(x) = c.f.sqrt(&x2) {
+                let p = Pt::Aff(x, y.clone());
+                let t = c.mul(&p, &spec.r).unwrap();
+                let t4 = c.mul(&t, &big_u(4)).unwrap();
+                if !c.is_identity(&t4) {
+                    // order exactly 8
+                    let mut out = vec![];
+                    let mut acc = t.clone();
+                    for _ in 0..8 {
+                        out.push(acc.clone());
+                        acc = c.add(&acc, &t).unwrap();
+                    }
+                    return out;
+                }
+            }
+        }
+        y += 1u32;
+    }
+}
+
+// ---------------------------------------------------------------------------------------------
+// Reference codecs
+// ---------------------------------------------------------------------------------------------
+
+pub type DecodeResult<E> = Result<Pt<E>, &'static str>;
+
+/// ZCash BLS12-381 serialization (also what blst implements). Flag bits in the first byte:
+/// 0x80 compressed, 0x40 infinity, 0x20 sign (y lexicographically largest; compressed only).
+pub fn zcash_encode<F: RField>(c: &Weierstrass<F>, p: &Pt<F::El>, compressed: bool) -> Vec<u8> {
+    let n = c.f.byte_len();
+    match p {
+        Pt::Inf => {
+            let mut out = vec![0u8; if compressed { n } else { 2 * n }];
+            out[0] = if compressed { 0xc0 } else { 0x40 };
+            out
+        }
+        Pt::Aff(x, y) => {
+            let mut out = c.f.ser(x, true);
+            if compressed {
+                out[0] |= 0x80;
+                if c.f.lex_largest(y) {
+                    out[0] |= 0x20;
+                }
+            } else {
+                out.extend(c.f.ser(y, true));
+            }
+            out
+        }
+    }
+}
+
+/// Canonical decoding, on-curve check included, no subgroup check.
+pub fn zcash_decode<F: RField>(c: &Weierstrass<F>, bytes: &[u8], compressed: bool) -> DecodeResult<F::El> {
+    let n = c.f.byte_len();
+    if bytes.len() != if compressed { n } else { 2 * n } {
+        return Err("length");
+    }
+    let flags = bytes[0] & 0xe0;
+    let c_flag = flags & 0x80 != 0;
+    let i_flag = flags & 0x40 != 0;
+    let s_flag = flags & 0x20 != 0;
+    if c_flag != compressed {
+        return Err("compression flag does not match the encoding length");
+    }
+    let mut body = bytes.to_vec();
+    body[0] &= 0x1f;
+    if i_flag {
+        if s_flag {
+            return Err("infinity with sign flag");
+        }
+        if body.iter().any(|b| *b != 0) {
+            return Err("infinity with non-zero payload");
+        }
+        return Ok(Pt::Inf);
+    }
+    if !compressed && s_flag {
+        return Err("sign flag on uncompressed encoding");
+    }
+    let x = c.f.de(&body[..n], true).ok_or("x not canonical")?;
+    if compressed {
+        let y = c.f.sqrt(&c.rhs(&x)).ok_or("no y for this x")?;
+        let y = if c.f.lex_largest(&y) == s_flag { y } else { c.f.neg(&y) };
+        if c.f.is_zero(&y) && s_flag {
+            return Err("sign flag on y = 0");
+        }
+        Ok(Pt::Aff(x, y))
+    } else {
+        let y = c.f.de(&body[n..], true).ok_or("y not canonical")?;
+        let p = Pt::Aff(x, y);
+        if !c.on_curve(&p) {
+            return Err("not on curve");
+        }
+        Ok(p)
+    }
+}
+
+/// halo2curves-style little-endian encoding with two spare bits in the last byte
+/// (BN254): bit 7 = sign (y odd), bit 6 = identity. Uncompressed: x ‖ y, identity = all zero.
+pub fn twospare_encode<F: RField>(c: &Weierstrass<F>, p: &Pt<F::El>, compressed: bool) -> Vec<u8> {
+    let n = c.f.byte_len();
+    match p {
+        Pt::Inf => {
+            let mut out = vec![0u8; if compressed { n } else { 2 * n }];
+            if compressed {
+                out[n - 1] |= 0x40;
+            }
+            out
+        }
+        Pt::Aff(x, y) => {
+            let mut out = c.f.ser(x, false);
+            if compressed {
+                if c.f.is_odd(y) {
+                    out[n - 1] |= 0x80;
+                }
+            } else {
+                out.extend(c.f.ser(y, false));
+            }
+            out
+        }
+    }
+}
+
+pub fn twospare_decode<F: RField>(c: &Weierstrass<F>, bytes: &[u8], compressed: bool) -> DecodeResult<F::El> {
+    let n = c.f.byte_len();
+    if bytes.len() != if compressed { n } else { 2 * n } {
+        return Err("length");
+    }
+    if compressed {
+        let sign = bytes[n - 1] & 0x80 != 0;
+        let ident = bytes[n - 1] & 0x40 != 0;
+        let mut body = bytes.to_vec();
+        body[n - 1] &= 0x3f;
+        let x = c.f.de(&body, false).ok_or("x not canonical")?;
+        if ident {
+            if sign {
+                return Err("identity with sign flag");
+            }
+            if !c.f.is_zero(&x) {
+                return Err("identity with non-zero payload");
+            }
+            return Ok(Pt::Inf);
+        }
+        let y = c.f.sqrt(&c.rhs(&x)).ok_or("no y for this x")?;
+        let y = if c.f.is_odd(&y) == sign { y } else { c.f.neg(&y) };
+        if c.f.is_odd(&y) != sign {
+            return Err("sign flag on y = 0");
+        }
+        Ok(Pt::Aff(x, y))
+    } else {
+        let x = c.f.de(&bytes[..n], false).ok_or("x not canonical")?;
+        let y = c.f.de(&bytes[n..], false).ok_or("y not canonical")?;
+        if c.f.is_zero(&x) && c.f.is_zero(&y) {
+            return Ok(Pt::Inf);
+        }
+        let p = Pt::Aff(x, y);
+        if !c.on_curve(&p) {
+            return Err("not on curve");
+        }
+        Ok(p)
+    }
+}
+
+/// Edwards compressed encoding (Jubjub, RFC 8032): y little-endian in 255 bits, bit 255 = x odd.
+pub fn edwards_encode(c: &TwistedEdwards<PrimeF>, p: &Pt<Big>) -> Vec<u8> {
+    let (x, y) = p.xy().expect("Edwards points are affine");
+    let mut out = le_bytes(y, 32);
+    if x.bit(0) {
+        out[31] |= 0x80;
+    }
+    out
+}
+
+pub fn edwards_decode(c: &TwistedEdwards<PrimeF>, bytes: &[u8]) -> DecodeResult<Big> {
+    if bytes.len() != 32 {
+        return Err("length");
+    }
+    let sign = bytes[31] & 0x80 != 0;
+    let mut body = bytes.to_vec();
+    body[31] &= 0x7f;
+    let y = Big::from_bytes_le(&body);
+    if y >= c.f.p {
+        return Err("y not canonical");
+    }
+    let x2 = c.x2_from_y(&y).ok_or("denominator zero")?;
+    let x = c.f.sqrt(&x2).ok_or("no x for this y")?;
+    if x.is_zero() && sign {
+        return Err("sign bit set on x = 0");
+    }
+    let x = if x.bit(0) == sign { x } else { c.f.neg(&x) };
+    Ok(Pt::Aff(x, y))
+}
+
+/// SEC1 compressed, fixed 33 bytes; identity = 33 zero bytes (the `GroupEncoding` convention of
+/// the RustCrypto crates).
+pub fn sec1_encode(c: &Weierstrass<PrimeF>, p: &Pt<Big>) -> Vec<u8> {
+    match p {
+        Pt::Inf => vec![0u8; 33],
+        Pt::Aff(x, y) => {
+            let mut out = vec![if y.bit(0) { 3u8 } else { 2u8 }];
+            out.extend(be_bytes(x, 32));
+            let _ = c;
+            out
+        }
+    }
+}
+
+pub fn sec1_decode(c: &Weierstrass<PrimeF>, bytes: &[u8]) -> DecodeResult<Big> {
+    if bytes.len() != 33 {
+        return Err("length");
+    }
+    match bytes[0] {
+        0 => {
+            if bytes[1..].iter().any(|b| *b != 0) {
+                Err("identity with non-zero payload")
+            } else {
+                Ok(Pt::Inf)
+            }
+        }
+        2 | 3 => {
+            let x = Big::from_bytes_be(&bytes[1..]);
+            if x >= c.f.p {
+                return Err("x not canonical");
+            }
+            let y = c.f.sqrt(&c.rhs(&x)).ok_or("no y for this x")?;
+            let y = if y.bit(0) == (bytes[0] == 3) { y } else { c.f.neg(&y) };
+            Ok(Pt::Aff(x, y))
+        }
+        _ => Err("tag"),
+    }
+}
+
+// ---------------------------------------------------------------------------------------------
+// Unit checks against published vectors (run by `c11 --stage selfcheck` and at start of every run)
+// ---------------------------------------------------------------------------------------------
+
+/// Returns a list of failed self-checks (empty = the reference agrees with the published data).
+pub fn self_check() -> Vec<String> {
+    let mut bad = vec![];
+    macro_rules! chk {
+        ($c:expr, $m:expr) => {
+            if !$c {
+                bad.push($m.to_string());
+            }
+        };
+    }
+    for r in [bls12_381_g1().sane(), bn254_g1().sane(), secp256k1().sane()] {
+        if let Err(e) = r {
+            bad.push(e);
+        }
+    }
+    for r in [bls12_381_g2().sane(), bn254_g2().sane()] {
+        if let Err(e) = r {
+            bad.push(e);
+        }
+    }
+    for r in [jubjub().sane(), edwards25519().sane()] {
+        if let Err(e) = r {
+            bad.push(e);
+        }
+    }
+    // secp256k1: 2G and 3G (SEC test vectors)
+    let k = secp256k1();
+    let g2 = k.curve.double(&k.gen).unwrap();
+    chk!(
+        g2 == Pt::Aff(
+            big_hex("c6047f9441ed7d6d3045406e95c07cd85c778e4b8cef3ca7abac09b95c709ee5"),
+            big_hex("1ae168fea63dc339a3c58419466ceaeef7f632653266d0e1236431a950cfe52a")
+        ),
+        "secp256k1 2G vector"
+    );
+    let g3 = k.curve.mul(&k.gen, &big_u(3)).unwrap();
+    chk!(
+        g3 == Pt::Aff(
+            big_hex("f9308a019258c31049344f85f89d5229b531c845836f99b08601f113bce036f9"),
+            big_hex("388f7b0f632de8140fe337e62a37f3566500a99934c2231b6cb9fd7584b8e672")
+        ),
+        "secp256k1 3G vector"
+    );
+    chk!(
+        hex::encode(sec1_encode(&k.curve, &k.gen))
+            == "0279be667ef9dcbbac55a06295ce870b07029bfcdb2dce28d959f2815b16f81798",
+        "secp256k1 SEC1 generator"
+    );
+    // edwards25519: RFC 8032 base point encoding, x coordinate, d
+    let e = edwards25519();
+    chk!(
+        hex::encode(edwards_encode(&e.curve, &e.gen))
+            == "5866666666666666666666666666666666666666666666666666666666666666",
+        "edwards25519 base point encoding"
+    );
+    chk!(
+        e.gen.xy().unwrap().0
+            == &big_dec("15112221349535400772501151409588531511454012693041857206046113283949847762202"),
+        "edwards25519 base point x"
+    );
+    chk!(
+        e.curve.d == big_dec("37095705934669439343138083508754565189542113879843219016388785533085940283555"),
+        "edwards25519 d"
+    );
+    chk!(edwards_torsion8(&e).len() == 8, "edwards25519 torsion");
+    // Jubjub d (Zcash spec value) and subgroup order
+    let j = jubjub();
+    chk!(
+        j.curve.d == big_hex("2a9318e74bfa2b48f5fd9207e6bd7fd4292d7f6d37579d2601065fd6d6343eb1"),
+        "jubjub d"
+    );
+    chk!(edwards_torsion8(&j).len() == 8, "jubjub torsion");
+    // BLS12-381 ZCash encodings of the generators (published test vectors)
+    let g1 = bls12_381_g1();
+    chk!(
+        hex::encode(zcash_encode(&g1.curve, &g1.gen, true))
+            == "97f1d3a73197d7942695638c4fa9ac0fc3688c4f9774b905a14e3a3f171bac586c55e83ff97a1aeffb3af00adb22c6bb",
+        "bls12-381 g1 compressed generator"
+    );
+    let g2s = bls12_381_g2();
+    chk!(
+        hex::encode(zcash_encode(&g2s.curve, &g2s.gen, true))
+            == "93e02b6052719f607dacd3a088274f65596bd0d09920b61ab5da61bbdc7f5049334cf11213945d57e5ac7d055d042b7e024aa2b2f08f0a91260805272dc51051c6e47ad4fa403b02b4510b647ae3d1770bac0326a805bbefd48056c8c121bdb8",
+        "bls12-381 g2 compressed generator"
+    );
+    // cofactors: h·r·P = identity for a point outside the subgroup is checked in c11 at run time
+    // round trips of every codec on the generators
+    chk!(zcash_decode(&g1.curve, &zcash_encode(&g1.curve, &g1.gen, true), true) == Ok(g1.gen.clone()), "zcash g1 c rt");
+    chk!(zcash_decode(&g1.curve, &zcash_encode(&g1.curve, &g1.gen, false), false) == Ok(g1.gen.clone()), "zcash g1 u rt");
+    chk!(zcash_decode(&g2s.curve, &zcash_encode(&g2s.curve, &g2s.gen, true), true) == Ok(g2s.gen.clone()), "zcash g2 c rt");
+    chk!(zcash_decode(&g2s.curve, &zcash_encode(&g2s.curve, &g2s.gen, false), false) == Ok(g2s.gen.clone()), "zcash g2 u rt");
+    let b1 = bn254_g1();
+    let b2 = bn254_g2();
+    chk!(twospare_decode(&b1.curve, &twospare_encode(&b1.curve, &b1.gen, true), true) == Ok(b1.gen.clone()), "bn g1 c rt");
+    chk!(twospare_decode(&b2.curve, &twospare_encode(&b2.curve, &b2.gen, true), true) == Ok(b2.gen.clone()), "bn g2 c rt");
+    chk!(twospare_decode(&b2.curve, &twospare_encode(&b2.curve, &b2.gen, false), false) == Ok(b2.gen.clone()), "bn g2 u rt");
+    chk!(edwards_decode(&j.curve, &edwards_encode(&j.curve, &j.gen)) == Ok(j.gen.clone()), "jubjub rt");
+    chk!(sec1_decode(&k.curve, &sec1_encode(&k.curve, &k.gen)) == Ok(k.gen.clone()), "sec1 rt");
+    // field sanity: Fp2 sqrt and inverse
+    let f2 = &g2s.curve.f;
+    let a = (big_u(1234567), big_u(7654321));
+    let a2 = f2.sqr(&a);
+    let s = f2.sqrt(&a2).unwrap();
+    chk!(s == a || s == f2.neg(&a), "fp2 sqrt");
+    chk!(f2.mul(&a, &f2.inv(&a).unwrap()) == f2.one(), "fp2 inv");
+    chk!(!f2.is_square(&(big_u(1), big_u(1))) || f2.sqrt(&(big_u(1), big_u(1))).is_some(), "fp2 is_square/sqrt agree");
+    bad
+}
